@@ -29,6 +29,8 @@ THEOREMS = [NS + t for t in [
     'C16_confluent', 'C16_tasks_confluent', 'C16_final', 'C16_schedule_independent', 'C16_spec', 'C16_patchcmp_order', 'C16_patchcmp_order_parsed',
     'C16_patchcmp_order_unparsed', 'C16_patchcmp_mixed_cycle', 'C16_patchcmp_needs_updates', 'C16_final_needs_cmpeq', 'C16_terminates', 'C16_terminates_needs_finite',
     'C16_cache_inv', 'C16_cache_once', 'C16_cache_linear', 'C16_cache_content', 'C16_cache_shared', 'C16_ticker_guarded']]
+SITES = ['dopen', 'readdir', 'gitignore', 'stat', 'fopen', 'extract']
+TICKER_THEOREM = NS + 'C16_ticker_guarded'
 COMPARE = ['res', 'ret', 'f', 'cls', 'maps']
 
 
@@ -167,8 +169,10 @@ def run(ctx):
                 '(GOMAXPROCS 1 and 16, 2/5 repetitions with Gosched/sleep perturbation before every attempt reads its ids), also under -race one case at a time (halt_on_error: a report is '
                 'attributed to the running case); patches: every delivery order (DFS with re-execution) of 14 fixed universes (2..4 initial vulns, follow-ups grouped and per-vuln, errors, empty patches, duplicates, '
                 'hypothesis violations) and of N random universes (cap per universe); cache: every interleaving of start-caller / release-fetch-ok / release-fetch-err for 2..4 callers over '
-                '1..2 keys (first caller on key 0), plus one SetMap (3 maps) + GetMap anywhere (quick: <=3 callers, thorough: 4); race: the same streams under -race and whole scans of '
-                '30..37 files over a slow FS (> 2.5 s, ticker fires). non-trivial = patches case with >=3 deliveries, cache case with a waiter or a failed fetch; distinct = distinct case lines')
+                '1..2 keys (first caller on key 0), plus one SetMap (3 maps) + GetMap anywhere (quick: <=3 callers, thorough: 4); race: the same streams under -race and whole scans '
+                '(one process each) of 20..27 files in 3..5 directories over an in-memory FS that is slow (~3 s in total) at ONE site kind per scan — directory Open, every ReadDir(1), '
+                '.gitignore Open, Stat, file Open, Extract — as whole-tree scans (ticker goroutine) and requested-path scans (control), plus the legacy every-Open-slow scan over walkcase.MemFS; '
+                'when the access table names an unguarded access, extra scans at the site kinds next to it. non-trivial = patches case with >=3 deliveries, cache case with a waiter or a failed fetch; distinct = distinct case lines')
     # 1. regenerate the access table from what the source says NOW
     targs = ['-out', lib.LEAN + '/Scalibr/Gen/Ticker.lean']
     if getattr(lib, 'ALT_REPO', None):
@@ -181,13 +185,35 @@ def run(ctx):
     conflicts = [l for l in tr_out.split('\n') if l.startswith('CONFLICT ')]
     # 2. the kernel re-checks every obligation, C16_ticker_guarded against the regenerated table
     drv_ok, _ = ctx.lean_build(['drv_c16'])
+    # the table obligation lives in its own module (the only one importing Gen/Ticker.lean) and is built and audited on its own,
+    # so a source change that breaks it does not take the other theorems down
+    tick_ok, _ = ctx.lean_build(['Scalibr.Properties.C16Ticker'])
+    tick_log = getattr(ctx, 'lean_log', '') if not tick_ok else ''
+    lean_ok_before = ctx.lean_ok
+    ctx.prop = 'C16Ticker'
+    try:
+        ctx.audit(['Scalibr.Properties.C16Ticker'], [TICKER_THEOREM])
+    finally:
+        ctx.prop = 'C16'
+    src_tick = ctx.obligations.get('<source-audit>')
+    ctx.lean_ok = True
     ok, _ = ctx.lean_build(['Scalibr.Properties.C16'])
-    proofs_ok = ctx.audit(['Scalibr.Properties.C16'], THEOREMS)
-    if ctx.tier == 'thorough' and ok:
-        proofs_ok = ctx.leanchecker('Scalibr.Properties.C16') and proofs_ok
+    ctx.audit(['Scalibr.Properties.C16'], [t for t in THEOREMS if t != TICKER_THEOREM])
+    if src_tick and src_tick != 'discharged':
+        ctx.obligations['<source-audit>'] = src_tick
+    ctx.lean_ok = ctx.lean_ok and lean_ok_before
+    if ctx.tier == 'thorough':
+        if ok:
+            ctx.leanchecker('Scalibr.Properties.C16')
+        if tick_ok:
+            ctx.leanchecker('Scalibr.Properties.C16Ticker')
+    proofs_ok = all(v == 'discharged' for v in ctx.obligations.values())
     ctx.checker_cmd = ('cd /verif/translator && go build -o bin/tickerdump ./cmd/tickerdump && bin/tickerdump && cd /verif/lean && '
-                       'lake build Scalibr.Properties.C16 drv_c16 && lake env lean Scalibr/Audit/C16.lean')
+                       'lake build Scalibr.Properties.C16 Scalibr.Properties.C16Ticker drv_c16 && lake env lean Scalibr/Audit/C16.lean && lake env lean Scalibr/Audit/C16Ticker.lean')
     failed = translib.failing_theorems(ctx, lib.LEAN + '/Scalibr/Properties/C16.lean') if not ok else []
+    if not tick_ok:
+        failed.append('C16_ticker_guarded')
+        ctx.lean_log = tick_log + '\n' + (getattr(ctx, 'lean_log', '') if not ok else '')
 
     # 3. correspondence streams (all schedules), implementation vs model, specification judged on the implementation
     n = {'quick': 60, 'thorough': 400}[ctx.tier]
@@ -320,41 +346,73 @@ def run(ctx):
                     ctx.mismatches += [b[0] for b in bad]
                     ctx.violation('correspondence c16gen-race/drv_c16: model and implementation differ on %d case(s) under -race' % len(bad),
                                   ['\t'.join(bad[0])], found_input=False, name='corr-race')
-        # 4b. whole scans over a slow FS, ticker firing, under -race
-        procs = []
+        # 4b. whole scans over a slow FS under -race, one process per scan = one case. Each scan is slow at ONE kind of site (directory open,
+        # every ReadDir(1), .gitignore open, stat, file open, Extract), so the 2 s tick lands in a different window of handleFile /
+        # walkDirUnsorted / runExtractor each time; whole-tree scans (ticker goroutine exists) and requested-path scans (control).
+        adjacent = []
+        for c in conflicts:
+            mm = re.search(r'walker: \w+ in (\S+) line', c)
+            if mm:
+                adjacent += {'handleFile': ['gitignore', 'dopen', 'readdir', 'stat'], 'runExtractor': ['fopen', 'extract'],
+                             'postHandleFile': ['readdir', 'dopen']}.get(mm.group(1), SITES)
+        order = sorted(SITES, key=lambda k: (k not in adjacent, SITES.index(k)))
+        scans = []
+        if ctx.replay:
+            for l in open(ctx.replay):
+                t = l.split()
+                if t and t[0] == 'scan' and len(t) >= 2 and t[1].lstrip('-').isdigit():
+                    scans.append((int(t[1]), t[2] if len(t) > 2 else 'legacy', t[3] if len(t) > 3 else 'tree'))
+        else:
+            for s_ in scan_seeds:
+                scans.append((s_, 'legacy', 'tree'))
+            for k, s_ in enumerate(scan_seeds[:{'quick': 1, 'thorough': 3}[ctx.tier]]):
+                for site in order:
+                    scans += [(s_, site, 'tree'), (s_, site, 'paths')]
+            for site in [x for x in order if x in adjacent]:      # the table names an unguarded access: more scans next to it
+                scans += [(ctx.seed * 100 + 50 + r, site, 'tree') for r in range(2)]
         e = lib.goenv()
         e['GORACE'] = 'halt_on_error=0 exitcode=66'
-        for s in scan_seeds:
-            procs.append((s, subprocess.Popen([race_bin, '-mode', 'scan', '-seed', str(s)], stdout=subprocess.PIPE, stderr=subprocess.PIPE, text=True, env=e)))
-        for s, p in procs:
-            try:
-                out, err = p.communicate(timeout=300)
-            except subprocess.TimeoutExpired:
-                p.kill()
-                out, err = p.communicate()
-                err += '\n(timeout)'
-            races['scans'] += 1
-            races['scan_seeds'].append(s)
-            ctx.evaluations += 1
-            fired = 'ticker_fired=1' in out
-            races['ticker_fired'] += 1 if fired else 0
-            if len(ctx.samples) < 12:
-                ctx.samples.append({'case': 'scan %d' % s, 'impl': out.strip()[:300], 'model': 'race-free (C16_ticker_guarded)'})
-            rep = race_report(err)
-            if rep or p.returncode == 66:
-                races['reports'] += 1
-                msg = 'the race detector reports a data race in a filesystem scan that outlasts the status interval: %s' % (rep or 'exit code 66')
-                if conflicts:
-                    msg += ' | access table: ' + conflicts[0][9:]
-                if sum(1 for v in ctx.violations if v[2] and 'scan' in v[0]) < 2:
-                    ctx.violation(msg, ['scan %d' % s] + ['# ' + l for l in err.split('\n')[:40]], name='race-scan-%d' % s)
-            elif p.returncode != 0 or 'complete=1' not in out:
-                ctx.violation('race scan seed %d did not complete: rc=%s %s %s' % (s, p.returncode, out.strip(), err[-400:]), ['scan %d' % s], found_input=False, name='scan-%d' % s)
-            elif not fired:
-                ctx.notes.append('scan seed %d finished before the 2 s ticker fired: inconclusive' % s)
-        if scan_seeds and races['ticker_fired'] == 0 and not ctx.violations:
+        races['scan_cases'] = len(scans)
+        races['scans_by_site'] = {}
+        for b in range(0, len(scans), 14):
+            procs = []
+            for (s_, site, sm) in scans[b:b + 14]:
+                procs.append(((s_, site, sm), subprocess.Popen([race_bin, '-mode', 'scan', '-seed', str(s_), '-site', site, '-scanmode', sm],
+                                                             stdout=subprocess.PIPE, stderr=subprocess.PIPE, text=True, env=e)))
+            for (s_, site, sm), p in procs:
+                case = 'scan %d %s %s' % (s_, site, sm)
+                try:
+                    out, err = p.communicate(timeout=300)
+                except subprocess.TimeoutExpired:
+                    p.kill()
+                    out, err = p.communicate()
+                    err += '\n(timeout)'
+                races['scans'] += 1
+                races['scans_by_site'][site + '/' + sm] = races['scans_by_site'].get(site + '/' + sm, 0) + 1
+                if s_ not in races['scan_seeds']:
+                    races['scan_seeds'].append(s_)
+                ctx.add_case(case, True, 'scan %s %s' % (site, sm))
+                fired = 'ticker_fired=1' in out
+                races['ticker_fired'] += 1 if fired else 0
+                if len(ctx.samples) < 12 and site != 'legacy' and sm == 'tree':
+                    ctx.samples.append({'case': case, 'impl': out.strip()[:300], 'model': 'race-free (C16_ticker_guarded)'})
+                rep = race_report(err)
+                if rep or p.returncode == 66:
+                    races['reports'] += 1
+                    msg = ('the race detector reports a data race in a filesystem scan that outlasts the status interval (slow site: %s, %s scan): %s'
+                           % (site, 'whole-tree' if sm == 'tree' else 'requested-path', rep or 'exit code 66'))
+                    if conflicts:
+                        msg += ' | access table: ' + conflicts[0][9:]
+                    if sum(1 for v in ctx.violations if v[2] and 'filesystem scan' in v[0]) < 2:
+                        ctx.violation(msg, [case] + ['# ' + l for l in err.split('\n')[:40]], name='race-scan-%d-%s-%s' % (s_, site, sm))
+                elif p.returncode != 0 or 'complete=1' not in out:
+                    ctx.violation('race scan %s did not complete: rc=%s %s %s' % (case, p.returncode, out.strip(), err[-400:]), [case], found_input=False,
+                                  name='scan-%d-%s-%s' % (s_, site, sm))
+                elif sm == 'tree' and not fired:
+                    ctx.notes.append('%s finished before the 2 s ticker fired: inconclusive' % case)
+        if any(sm == 'tree' for _, _, sm in scans) and races['ticker_fired'] == 0 and not ctx.violations:
             ctx.violation('no race scan lasted long enough for the status ticker to fire: the runtime part did not exercise printStatus',
-                          ['scan %d' % s for s in scan_seeds], found_input=False, name='scan-vacuous')
+                          ['scan %d %s %s' % x for x in scans], found_input=False, name='scan-vacuous')
     ctx.extra['race_detector'] = races
     ctx.extra['explanation'] = ('level other (partial): kernel-checked theorems about the models + exhaustive schedule correspondence on the real code; race freedom below callback '
                                 'granularity is observed by the race detector on executed schedules only')
@@ -363,4 +421,4 @@ def run(ctx):
     if not proofs_ok:
         if failed:
             ctx.notes.append('theorems that no longer check: ' + ', '.join(failed))
-        lib.proof_failed(ctx, 'Scalibr.Properties.C16' + (': ' + ', '.join(failed) if failed else '') + (' | ' + conflicts[0][9:] if conflicts else ''))
+        lib.proof_failed(ctx, 'Scalibr.Properties.C16' + ('Ticker' if failed == ['C16_ticker_guarded'] else '') + (': ' + ', '.join(failed) if failed else '') + (' | ' + conflicts[0][9:] if conflicts else ''))
